@@ -553,6 +553,8 @@ def run(R):
     if not quick:
         rdb += [(3, 3, 1, (0, 1, 3)), (2, 1, 1, (0, 3)), (3, 2, 0, (0, 0, 1))]
     items += [("rdb",) + c for c in rdb]
+    from .. import kvalid
+    kvalid.validate(R, ["roll_block", "roll_block_valid", "dmt_block", "dmt_block_valid"])
     parts = R.pmap(work, items)
     R.vacuity_witness("c09", sum(p.reached for p in parts) > 0)
     # twin: roll_block with the opposite sign convention must be refuted
